@@ -6,6 +6,11 @@
 //	vs <pub> <sig> <solution> <sigOK> <required> <expiresNs> <expectedSubject> <hc.String()> <sha256 of it>
 //	   <nowLo> <nowHi> <fromSolver> <perr | diff,exp|z,subj,alg as parsed by the real Parse>  => <result token>
 //	solve <diff> <exp|z> <subj> <nonce> <alg> <maxD> <String() before> <String() after> <sha256 of it> => ok,<solution> | err,<kind> | timeout
+//	rsolve <diff> <exp|z> <subj> <nonce> <alg> <solution before> <maxD> <String() before> <sha256 of it> <nowLo> <nowHi>
+//	   <String() after> <sha256 of it>                     => ok,<solution> | err,<kind> | timeout
+//	   (Solve on a stamp that may already carry a solution: still valid, stale after its parameters changed, foreign, garbage;
+//	    every successful rsolve is followed by an `hcv` line (real Verify on the result) and a `vs` line (the result signed and
+//	    presented to the real VerifySolution under the stamp's own parameters, fromSolver=true))
 //
 // sha256 / ed25519 / base64 results are computed here by the real libraries and handed to the model as inputs.
 // time.Now() is not controlled: every vs line carries the wall clock just before and just after the call; the
@@ -561,6 +566,248 @@ func genSolve(n, maxD int) {
 	}
 }
 
+// ---------- rsolve: Solve on stamps that already carry a solution ----------
+
+func verifyAccepts(h *hashcash.Hashcash, subject string) (ok bool) {
+	defer func() {
+		if recover() != nil {
+			ok = false
+		}
+	}()
+	return h.Verify(subject) == nil
+}
+
+// doRSolve calls the real Solve on hc AS IT IS (including whatever Solution it carries) and, when Solve reports success,
+// has the result judged three ways: the digest of the stamp it leaves behind (rsolve line), the real Hashcash.Verify (hcv
+// line) and the real pow.VerifySolution on the signed stamp under the stamp's own parameters (vs line, fromSolver).
+func doRSolve(kind string, hc *hashcash.Hashcash, maxD int) bool {
+	before := hc.String()
+	dgB := sha256.Sum256([]byte(before))
+	lhs := []string{"rsolve", strconv.Itoa(hc.Difficulty), expTok(hc.ExpiresAt), hlib.HexS(hc.Subject), hlib.HexS(hc.Nonce), hlib.HexS(hc.Alg),
+		hlib.HexS(hc.Solution), strconv.Itoa(maxD), hlib.HexS(before), hlib.Hex(dgB[:])}
+	var res string
+	after, digest := "-", "-"
+	lo := time.Now().UnixNano()
+	err := guard(func() error { return hc.Solve(maxD) })
+	hi := time.Now().UnixNano()
+	switch err {
+	case nil:
+		s := hc.String()
+		dg := sha256.Sum256([]byte(s))
+		after, digest = hlib.HexS(s), hlib.Hex(dg[:])
+		res = "ok," + hlib.HexS(hc.Solution)
+	case hashcash.ErrUnsupportedAlgorithm:
+		res = "err,alg"
+	case hashcash.ErrInvalidDifficulty:
+		res = "err,difficulty"
+	case errHung:
+		res = "timeout"
+	default:
+		res = "err,other"
+	}
+	r.Emit(strings.Join(append(lhs, strconv.FormatInt(lo, 10), strconv.FormatInt(hi, 10), after, digest), " "), res)
+	r.Case("rsolve" + before + strconv.Itoa(maxD))
+	r.Count("rsolve:" + kind + ":" + strings.SplitN(res, ",", 2)[0])
+	if err != nil {
+		return err != errHung
+	}
+	// the real Verify on what Solve left behind (hcv lines are about unexpired stamps only)
+	far := hc.ExpiresAt.IsZero() || time.Until(hc.ExpiresAt) > 30*time.Second
+	if far && hc.Difficulty >= 0 {
+		v := "reject"
+		if verifyAccepts(hc, hc.Subject) {
+			v = "accept"
+		}
+		r.Emit(fmt.Sprintf("hcv %d %s", hc.Difficulty, digest), v)
+		r.Case("hcv-rs" + hc.String())
+		r.Count("hcv:after-rsolve:" + kind + ":" + v)
+	}
+	// and the whole proof: signed by a fresh key whose subject is the stamp's subject, same difficulty, a window that holds the expiry
+	if far && !hc.ExpiresAt.IsZero() && !strings.Contains(hc.Subject+hc.Nonce, ":") {
+		expires := 50 * year
+		if time.Until(hc.ExpiresAt) < 15*time.Second {
+			expires = 10 * time.Second
+		} else if time.Until(hc.ExpiresAt) < 100*time.Minute && rng.Bool() {
+			expires = time.Hour
+		}
+		pub, priv := newKey()
+		s := hc.String()
+		doVS("resolved:"+kind, pub, ed25519.Sign(priv, []byte(s)), s, hc.Difficulty, expires, hc.Subject, true)
+	}
+	return true
+}
+
+func randSubject() string {
+	return hlib.Pick(rng, []string{"s", "example.com", "subject-a", "subject-b", defaultSubject(rng.Bytes(32)), "a b", "ü", "*"})
+}
+
+// expiry between one minute and ~90 years from now (VerifySolution's window 2*Expires must fit int64 ns)
+func randFuture() time.Time {
+	var d time.Duration
+	switch rng.Intn(4) {
+	case 0:
+		d = time.Minute + time.Duration(rng.Intn(3600))*time.Second
+	case 1:
+		d = time.Duration(1+rng.Intn(72)) * time.Hour
+	default:
+		d = time.Duration(1+rng.Intn(90*365)) * 24 * time.Hour
+	}
+	return time.Now().Add(d)
+}
+
+func randDifficulty(maxD int) int {
+	if rng.Chance(35) { // at and around the byte boundaries of the bit test
+		for {
+			d := hlib.Pick(rng, []int{1, 7, 8, 9, 15, 16, 17})
+			if d <= maxD {
+				return d
+			}
+		}
+	}
+	return 1 + rng.Intn(maxD)
+}
+
+// one edit of a stamp's parameters that (almost surely) makes a solution it carries stale
+func mutateStamp(hc *hashcash.Hashcash, maxD int) string {
+	switch rng.Intn(7) {
+	case 0:
+		for {
+			if d := randDifficulty(maxD); d != hc.Difficulty {
+				hc.Difficulty = d
+				return "difficulty"
+			}
+		}
+	case 1:
+		if hc.Difficulty < maxD {
+			hc.Difficulty += 1 + rng.Intn(maxD-hc.Difficulty)
+			return "difficulty-up"
+		}
+		hc.Difficulty = 1 + rng.Intn(maxD)
+		return "difficulty"
+	case 2:
+		hc.Subject = randSubject() + strconv.Itoa(rng.Intn(1000))
+		return "subject"
+	case 3:
+		hc.ExpiresAt = randFuture().UTC().Truncate(time.Second)
+		return "expiry"
+	case 4:
+		hc.Nonce = base64.RawURLEncoding.EncodeToString(rng.Bytes(16))
+		return "nonce"
+	case 5:
+		hc.Difficulty = randDifficulty(maxD)
+		hc.Subject = randSubject() + "-" + strconv.Itoa(rng.Intn(1000))
+		return "difficulty+subject"
+	default:
+		hc.Difficulty = randDifficulty(maxD)
+		hc.ExpiresAt = randFuture().UTC().Truncate(time.Second)
+		return "difficulty+expiry"
+	}
+}
+
+func newStamp(maxD int) *hashcash.Hashcash {
+	h := hashcash.Hashcash{Subject: randSubject(), Difficulty: randDifficulty(maxD), ExpiresAt: randFuture()}
+	if rng.Bool() {
+		h.Nonce = base64.RawURLEncoding.EncodeToString(rng.Bytes(16))
+	}
+	return hashcash.New(h)
+}
+
+func foreignSolution() string {
+	switch rng.Intn(5) {
+	case 0:
+		return "incorrect"
+	case 1:
+		return hlib.Hex(rng.Bytes(1 + rng.Intn(6)))
+	case 2: // same shape as a real counter
+		return base64.RawURLEncoding.EncodeToString([]byte{byte(rng.Intn(256)), byte(rng.Intn(4)), 0, 0})
+	case 3:
+		return "AAAAAA"
+	default:
+		return base64.RawURLEncoding.EncodeToString(rng.Bytes(4))
+	}
+}
+
+// genResolve: multi-step lives of a stamp. Solve is called on stamps that were solved before and then re-targeted (one to
+// three rounds), that carry a foreign / garbage solution (set directly, or arriving through Parse), that are still valid
+// (Solve must keep them), that expired and were refreshed, or whose algorithm / difficulty became unacceptable.
+func genResolve(n, maxD int) {
+	for i := 0; i < n; i++ {
+		r.Raw("# case rsolve " + strconv.Itoa(i))
+		hc := newStamp(maxD)
+		ok := true
+		switch k := rng.Intn(10); k {
+		case 0, 1, 2, 3: // solve, then rounds of (edit parameters, solve again)
+			ok = doRSolve("fresh", hc, 26)
+			rounds := 1 + rng.Intn(3)
+			for j := 0; ok && j < rounds; j++ {
+				what := mutateStamp(hc, maxD)
+				ok = doRSolve("after-"+what, hc, 26)
+			}
+		case 4: // a foreign / garbage solution put on an unsolved stamp
+			hc.Solution = foreignSolution()
+			ok = doRSolve("foreign", hc, 26)
+		case 5: // the solution of ANOTHER solved stamp
+			other := newStamp(maxD)
+			if ok = doRSolve("fresh", other, 26); ok {
+				hc.Solution = other.Solution
+				ok = doRSolve("borrowed", hc, 26)
+			}
+		case 6: // arrives over the wire: a solved stamp edited in transit, parsed, solved again
+			if ok = doRSolve("fresh", hc, 26); ok {
+				s := hc.String()
+				switch rng.Intn(4) {
+				case 0:
+					s = setField(s, 1, strconv.Itoa(randDifficulty(maxD)))
+				case 1:
+					s = setField(s, 3, randSubject()+"x")
+				case 2:
+					s = setField(s, 6, foreignSolution())
+				default:
+					s = setField(s, 4, base64.RawURLEncoding.EncodeToString(rng.Bytes(16)))
+				}
+				if p, err := hashcash.Parse(s); err == nil {
+					ok = doRSolve("parsed", p, 26)
+				}
+			}
+		case 7: // still valid: Solve must return it unchanged, any number of times, also through Parse
+			if ok = doRSolve("fresh", hc, 26); ok {
+				ok = doRSolve("unchanged", hc, 26)
+				if p, err := hashcash.Parse(hc.String()); ok && err == nil {
+					ok = doRSolve("unchanged-parsed", p, 26)
+				}
+			}
+		case 8: // expired with a (bit-wise good) solution, solved again, then refreshed and solved again
+			hc.ExpiresAt = time.Now().Add(-time.Duration(2+rng.Intn(600)) * time.Second).UTC().Truncate(time.Second)
+			if ok = doRSolve("fresh-expired", hc, 26); ok {
+				ok = doRSolve("expired", hc, 26)
+				hc.ExpiresAt = randFuture().UTC().Truncate(time.Second)
+				ok = ok && doRSolve("refreshed", hc, 26)
+			}
+		default: // rejected re-solves: the stamp must come back with an error, and lower limits
+			if ok = doRSolve("fresh", hc, 26); ok {
+				switch rng.Intn(4) {
+				case 0:
+					hc.Alg = hlib.Pick(rng, []string{"SHA-1", "sha-256", ""})
+					ok = doRSolve("alg-changed", hc, 26)
+				case 1:
+					hc.Difficulty = 27 + rng.Intn(10)
+					ok = doRSolve("difficulty-too-high", hc, 40)
+				case 2:
+					mutateStamp(hc, maxD)
+					ok = doRSolve("limit", hc, rng.Intn(maxD+1))
+				default:
+					hc.Difficulty = 0 // New never leaves 0, a caller can
+					ok = doRSolve("difficulty-zero", hc, 26)
+				}
+			}
+		}
+		if !ok {
+			return // a hanging solver: stop
+		}
+	}
+	r.Raw("# case end-of-rsolve")
+}
+
 func replay() {
 	for _, t := range r.ReplayLines() {
 		i := func(k int) int { v, _ := strconv.Atoi(t[k]); return v }
@@ -576,7 +823,18 @@ func replay() {
 		case "vs":
 			if len(t) >= 8 {
 				ns, _ := strconv.ParseInt(t[6], 10, 64)
-				doVS("replay", hlib.UnHex(t[1]), hlib.UnHex(t[2]), string(hlib.UnHex(t[3])), i(5), time.Duration(ns), string(hlib.UnHex(t[7])), false)
+				doVS("replay", hlib.UnHex(t[1]), hlib.UnHex(t[2]), string(hlib.UnHex(t[3])), i(5), time.Duration(ns), string(hlib.UnHex(t[7])),
+					len(t) > 12 && t[12] == "true")
+			}
+		case "rsolve":
+			if len(t) >= 8 {
+				var exp time.Time
+				if t[2] != "z" {
+					e, _ := strconv.ParseInt(t[2], 10, 64)
+					exp = time.Unix(e, 0).UTC()
+				}
+				doRSolve("replay", &hashcash.Hashcash{Tag: "H", Difficulty: i(1), ExpiresAt: exp, Subject: string(hlib.UnHex(t[3])),
+					Nonce: string(hlib.UnHex(t[4])), Alg: string(hlib.UnHex(t[5])), Solution: string(hlib.UnHex(t[6]))}, i(7))
 			}
 		case "solve":
 			if len(t) >= 7 {
@@ -598,7 +856,10 @@ func main() {
 		"parse: well-formed stamps, strconv edge numbers (signs, leading zeros, int64 limits), wrong arity, arbitrary bytes; " +
 		"vs: proofs from the real GenerateSolution (difficulty 1..12/16, fresh ed25519 keys) verified as is (must be accepted) and with ONE tampered element " +
 		"(signature, key, sizes, required difficulty, expected subject, each stamp field re-signed, window parameter), hand-built stamps with expiry at second offsets around now−2E, now, now+2E; " +
-		"solve: real Solve over random stamps incl. rejected difficulties/algorithms. non-trivial = distinct op line"
+		"solve: real Solve over random stamps incl. rejected difficulties/algorithms; " +
+		"rsolve: stamp lives of several steps — solved, re-targeted (difficulty/subject/expiry/nonce) and solved again 1..3 times, foreign/garbage/borrowed solutions, " +
+		"parsed edited stamps, unchanged (still valid) stamps, expired-then-refreshed stamps, rejected re-solves — each result judged by its digest, the real Verify and the real VerifySolution. " +
+		"non-trivial = distinct op line"
 	if r.Replay != "" {
 		replay()
 		r.Finish()
@@ -616,6 +877,11 @@ func main() {
 	genHCV(nhcv)
 	genParse(nparse)
 	genSolve(nsolve, maxD)
+	nres := 400
+	if r.Thorough() {
+		nres = 4000
+	}
+	genResolve(nres, maxD)
 	genVS(nvs, maxD)
 	genTime(ntime)
 	r.Finish()
